@@ -112,8 +112,9 @@ def pure_block(eng, stmts, st):
         return pure_block(eng, rest, st)
     if isinstance(s0, ast.If):
         c = eng.truthy(eng.ev1(s0.test, st), st)
-        if c.lit is not None:
-            return pure_block(eng, (s0.body if c.lit[1] else s0.orelse) + rest, st)
+        kn = eng.known(st, c)
+        if kn is not None:
+            return pure_block(eng, (s0.body if kn else s0.orelse) + rest, st)
         a = pure_block(eng, s0.body + rest, st.copy())
         b = pure_block(eng, s0.orelse + rest, st.copy())
         return eng.v_ite(c, a, b, st)
